@@ -34,7 +34,7 @@ ASSUMPTIONS = [
     "the evaluator inside uses the serial pool substitute",
 ]
 MINIMUM = {"C16.line_level_schedules": 50, "C16.schedules_judged": 600, "C16.process_histories_judged": 10, "C16.snapshots_judged": 100, "C16.collisions_exercised": 100}
-BUDGET_S = {"quick": 600, "thorough": 900}
+BUDGET_S = {"quick": 1200, "thorough": 900}
 SHARDS = {"quick": 16, "thorough": 900}
 
 CFG = {"input": "UNMATCHED_INSTANCE", "matcher": {"kind": "naive", "metric": "IOU", "thr": 0.5}, "metrics": ["DSC", "IOU", "RVD"], "global": ["DSC"]}
